@@ -7,6 +7,7 @@ import (
 	"sort"
 	"strings"
 	"time"
+	"unicode"
 
 	"github.com/nyaruka/goflow/assets"
 	"github.com/nyaruka/goflow/flows"
@@ -106,7 +107,7 @@ func init() {
 // render renders flow 0 from a spec, adding the router kinds this check defines.
 func render(spec world.FlowSpec) J {
 	// render unknown kinds as "N" first, then patch
-	tmp := world.FlowSpec{Nodes: make([]world.Node, len(spec.Nodes))}
+	tmp := world.FlowSpec{Nodes: make([]world.Node, len(spec.Nodes)), Type: spec.Type}
 	for i, n := range spec.Nodes {
 		tmp.Nodes[i] = n
 		if n.Kind == "G" || n.Kind == "RR" {
@@ -161,6 +162,7 @@ type rootSpec struct {
 	Flow    world.FlowSpec `json:"flow"`
 	Trigger string         `json:"trigger"`
 	Lang    string         `json:"contact_language,omitempty"`
+	Variant string         `json:"variant,omitempty"` // field-template family: which field holds which template
 }
 
 // vary names one input the influence test changes
@@ -222,7 +224,11 @@ func (rs *rootSpec) world(v *vary) *world.Root {
 }
 
 func (rs *rootSpec) String() string {
-	return rs.Flow.String() + " | trigger=" + rs.Trigger + " contact-language=" + rs.Lang
+	v := ""
+	if rs.Variant != "" {
+		v = " variant=" + rs.Variant
+	}
+	return rs.Flow.String() + " | trigger=" + rs.Trigger + " contact-language=" + rs.Lang + v
 }
 
 type replay struct {
@@ -386,9 +392,35 @@ func runEventsByFlow(x *world.Exec) map[string]string {
 	out := map[string]string{}
 	for _, r := range x.Session.Runs() {
 		b, _ := json.Marshal(r.Events())
+		// the run summary a session_triggered event carries is a snapshot of the whole contact and of all
+		// results: a wildcard read, which the dependency clause excepts
+		var evs []map[string]any
+		if json.Unmarshal(b, &evs) == nil {
+			for _, e := range evs {
+				delete(e, "run_summary")
+			}
+			b, _ = json.Marshal(evs)
+		}
 		out[string(r.FlowReference().UUID)] += world.Canon(b) + "\n"
 	}
 	return out
+}
+
+// refKey is the reference for the key of a result name: trimmed, lower case, every run of characters
+// other than letters, digits and underscores replaced by one underscore.
+func refKey(name string) string {
+	var sb strings.Builder
+	inRun := false
+	for _, r := range strings.ToLower(strings.TrimSpace(name)) {
+		if r == '_' || unicode.IsLetter(r) || unicode.IsDigit(r) {
+			sb.WriteRune(r)
+			inRun = false
+		} else if !inRun {
+			sb.WriteByte('_')
+			inRun = true
+		}
+	}
+	return sb.String()
 }
 
 func judge(c *mc.Ctx, rs *rootSpec, hist []world.Step, influence bool, count bool) []sm.Problem {
@@ -429,6 +461,21 @@ func judge(c *mc.Ctx, rs *rootSpec, hist []world.Step, influence bool, count boo
 		stepNode := map[string]string{}
 		for _, s := range r.Path() {
 			stepNode[string(s.UUID())] = string(s.NodeUUID())
+		}
+		// (results, stored) every key under which the run holds a result is a key of the inspection: what
+		// @results.<key> reads must be what the inspection announces
+		// (a result the inspection does not announce at all is the events clause's business below)
+		for key, res := range r.Results() {
+			_, declared := in.results[key]
+			_, announced := in.results[refKey(res.Name)]
+			if count {
+				c.Fact("stored_key:" + keyShape(res.Name))
+			}
+			if key != refKey(res.Name) {
+				add("results:stored-key-is-not-the-snake-case-of-the-name:"+keyShape(res.Name), "a run holds result %q under key %q; the key of that name is %q", res.Name, key, refKey(res.Name))
+			} else if !declared && announced {
+				add("results:stored-key-not-in-inspection:"+keyShape(res.Name), "a run holds result %q under key %q but the flow's inspection lists the keys %v", res.Name, key, keysOf(in.results))
+			}
 		}
 		evs := r.Events()
 		prev := t.PrevEvents[r.UUID()]
@@ -577,6 +624,34 @@ func nodeActionType(root *world.Root, flowUUID, nodeUUID string) string {
 	return strings.Join(parts, "+")
 }
 
+// keyShape classifies a result name by its separators (for signature keys).
+func keyShape(name string) string {
+	var parts []string
+	if strings.TrimSpace(name) != name {
+		parts = append(parts, "padded")
+	}
+	run, maxRun := 0, 0
+	for _, r := range strings.TrimSpace(name) {
+		if r == ' ' || r == '-' || r == '_' || r == '\t' {
+			run++
+			if run > maxRun {
+				maxRun = run
+			}
+		} else {
+			run = 0
+		}
+	}
+	switch {
+	case maxRun >= 2:
+		parts = append(parts, "adjacent-separators")
+	case maxRun == 1:
+		parts = append(parts, "single-separators")
+	default:
+		parts = append(parts, "plain")
+	}
+	return strings.Join(parts, "+")
+}
+
 func specs(tier string) []rootSpec {
 	kinds := append(append([]string{}, actionKinds...), routerKinds...)
 	var out []rootSpec
@@ -594,6 +669,7 @@ func specs(tier string) []rootSpec {
 			}
 		}
 	}
+	out = append(out, ftSpecs()...)
 	return out
 }
 
@@ -614,8 +690,14 @@ func run(c *mc.Ctx) {
 		rs := &ss[i]
 		cfg := sm.Cfg{Ctx: c, Depth: depth, Events: []string{"msg:a", "msg:zz", "timeout"}, Regimes: []bool{true}, ChoiceBound: bound}
 		cfg.Visit = func(t *sm.Trans) bool {
+			if t.HarnessErr != nil && rs.Variant != "" && len(t.Hist) == 1 {
+				c.Inc("field_template_variants_rejected_when_loading") // not every string field admits arbitrary text
+			}
 			if t.HarnessErr != nil || t.Panic != "" || t.X == nil || t.X.Err != nil {
 				return false
+			}
+			if rs.Variant != "" {
+				c.Inc("field_template_variants_run")
 			}
 			c.Inc("evaluations")
 			influence := c.Thorough() || len(t.Hist) <= 2
@@ -653,7 +735,8 @@ func init() {
 		ID:    "C20",
 		Level: "model_checking",
 		Rule: "static inspection compared with ALL executions: every canonical flow of <= 2 nodes over a 21-kind alphabet (16 result-saving / asset-referencing actions: set_run_result with keys differing in case/spacing, open_ticket, call_webhook, call_resthook, call_classifier, transfer_airtime, add/remove groups, set field from a template, labels, set channel, template message, templates reading fields/globals/parent results, broadcast; routers: msg wait, wait+timeout, split by group, random with result, enter_flow) x {msg, flow_action} triggers; BFS over resumes {msg a, msg zz, timeout} to depth 1/2 with every environment answer (HTTP answers, random draws) up to a deviation bound. " +
-			"Oracles per transition: every run_result_changed key (and category when the spec lists categories) is in Inspect().results; every exit by which a resume leaves a wait is a waiting exit; every asset an event names that the node references by a fixed reference (found by a generic JSON walk) is a dependency; and, by re-running with one field / global / group membership changed, every input that influences a flow's events is a dependency.",
+			"Plus the field-template family: one-node flows (messaging and voice) with one action of each of 23 types in which one string field at a time - tagged as a template or not - holds an expression reading a global or a contact field, and result names written with adjacent separators, padding or mixed case. " +
+			"Oracles per transition: every run_result_changed key (and category when the spec lists categories) is in Inspect().results; every key under which a run actually holds a result is a key of the inspection; every exit by which a resume leaves a wait is a waiting exit; every asset an event names that the node references by a fixed reference (found by a generic JSON walk) is a dependency; and, by re-running with one field / global / group membership changed, every input that influences a flow's events is a dependency.",
 		Assumptions: []string{"assets reached through wildcards, names or expressions are outside the dependency clause", "the influence test varies 2 fields, 2 globals and 2 static groups"},
 		Run:         run,
 		Replay:      replayFn,
